@@ -34,7 +34,8 @@ ASSUMPTIONS = ["pvm/ref/oftable.py + ofmatch.py state the 1.0 semantics",
                "emergency entries are not exercised (the switch rejects them)"]
 REQUIRED = ["steps", "tables_compared", "replaced", "modified", "deleted",
             "expired_idle", "expired_hard", "flow_removed_checked",
-            "overlap_errors", "packets_counted", "idle_refreshed"]
+            "overlap_errors", "packets_counted", "idle_refreshed",
+            "bounded_table_cases", "table_full_errors"]
 TIMEOUT = {"quick": 900, "thorough": 7200}
 
 FW = OM
@@ -95,9 +96,13 @@ class Run (object):
     self.rep = rep; self.case = case
     self.clock = simnet.VClock(1000.0)
     self.clock.install()
+    kw = {}
+    if case.get("max_entries"):
+      kw["max_entries"] = case["max_entries"]
+      rep.count("bounded_table_cases")
     self.sw = simnet.DirectSwitch(dpid=4, ports=4, max_buffers=0,
-                                  miss_send_len=128)
-    self.model = OT.Table()
+                                  miss_send_len=128, **kw)
+    self.model = OT.Table(max_entries=case.get("max_entries"))
     self.slot = 1000
     self.xid = 100
     self.flags = set()
@@ -143,7 +148,11 @@ class Run (object):
         e.setdefault("cookie_alt", set()).add(fm["cookie"])
     if removed:
       self.rep.count("deleted", len(removed)); self.flags.add("nt")
-    if errors: self.rep.count("overlap_errors")
+    if errors:
+      if any(c == OT.FMFC_ALL_TABLES_FULL for (t, c) in errors):
+        self.rep.count("table_full_errors")
+      else:
+        self.rep.count("overlap_errors")
     self.expect_messages(removed_of(removed), errors, fm["xid"],
                          "%s flow_mod" % ["ADD", "MODIFY", "MODIFY_STRICT",
                                           "DELETE", "DELETE_STRICT"][cmd])
@@ -336,7 +345,7 @@ def do_case (case, rep):
     rep.violation("C04 harness-visible exception",
                   traceback.format_exc()[-900:], case)
     nt = True
-  rep.case(repr(case["ops"]).encode(), nontrivial=nt)
+  rep.case(repr((case["ops"], case.get("max_entries"))).encode(), nontrivial=nt)
 
 
 def alphabet ():
@@ -388,7 +397,9 @@ def gen_random (rng, count, maxlen):
         ops.append(["tick", rng.choice([1, 2, 3, 4, 8])])
       else:
         ops.append(["sweep"])
-    yield dict(ops=ops + SUFFIX[-4:])
+    case = dict(ops=ops + SUFFIX[-4:])
+    if rng.random() < 0.3: case["max_entries"] = rng.choice([1, 2, 3, 4])
+    yield case
 
 
 def plan (tier, seed):
@@ -411,6 +422,10 @@ def run (spec, rep):
   for case in g:
     do_case(case, rep)
     if first: rep.sample(case); first = False
+    if spec["mode"] == "exh":
+      # the same history against a table with room for one entry only
+      c2 = dict(case); c2["max_entries"] = 1
+      do_case(c2, rep)
 
 
 def replay (witness, rep):
